@@ -93,6 +93,10 @@ def _models(tier):
       feature_configs=[_fc('a', monotonicity='increasing', nk=nk, default_value=-1.0), _fc('b', nk=nk)],
       output_min=1.0, output_max=2.0, output_initialization=[1.0, 2.0])),
             [('a', 'increasing')], (1.0, 2.0), {}, dict(a=-1.0)))
+  M.append(('calibrated-linear-categorical-shortcut', lambda: P.CalibratedLinear(C.CalibratedLinearConfig(
+      feature_configs=[_fc('a', monotonicity='increasing', nk=nk), _fc('c', num_buckets=4, monotonicity=[(0, 3), (0, 1), (1, 2), (2, 3)])],
+      use_bias=True, output_initialization=[0.0, 1.0])),
+            [('c', ('pair', 2, 3)), ('c', ('pair', 0, 1)), ('a', 'increasing')], None))
   M.append(('calibrated-lattice-output-calibration', lambda: P.CalibratedLattice(C.CalibratedLatticeConfig(
       feature_configs=[_fc('a', monotonicity='increasing', nk=nk), _fc('b', nk=nk)], output_min=0.0, output_max=1.0, output_calibration=True,
       output_calibration_num_keypoints=2, output_initialization=[0.0, 1.0])),
@@ -191,8 +195,8 @@ def constraint_predicates(var, val):
       cons += [z3.Or(sym.EQ(t, 1), sym.EQ(t, 0)) for t in c06.norm_terms(val, 1)]
     return cons, name
   if name == 'CategoricalCalibrationConstraints':
-    q = dict(pairs=[list(t) for t in (con.monotonicities or [])], omin=con.output_min, omax=con.output_max)
-    return specs.holds(c06.cat_cons(val, q)), name
+    # min/max passes only: the real constraint graph is run on a raw symbolic tensor instead of trusting its attributes
+    return None, name
   if name == 'NaiveBoundsConstraints':
     # cheap (two clips): the real constraint graph is run on a raw symbolic tensor instead of trusting its attributes
     return None, name
@@ -285,7 +289,7 @@ def case_model(**p):
         vv[v.ref()] = val
         scale_val[v.name.rsplit('/', 1)[0]] = (v, val)
     for v, s in post:
-      if type(v.constraint).__name__ == 'NaiveBoundsConstraints':
+      if type(v.constraint).__name__ in ('NaiveBoundsConstraints', 'CategoricalCalibrationConstraints'):
         (val,) = Traced(_apply(v.constraint), [tf.TensorSpec(list(v.shape), tf.float32)]).sym_run(s)
         vv[v.ref()] = val
     for v, s in post:
@@ -432,12 +436,12 @@ def replay(r):
   moved = 0.0
   # variables whose constraint has no predicate form (KFL scale, then KFL kernel) carry the raw pre-projection witness: the
   # real constraints are applied to them once, in that order, exactly as one optimizer step would
-  for kind_ in ('NaiveBoundsConstraints', 'ScaleConstraints', 'KroneckerFactoredLatticeConstraints'):
+  for kind_ in ('NaiveBoundsConstraints', 'CategoricalCalibrationConstraints', 'ScaleConstraints', 'KroneckerFactoredLatticeConstraints'):
     for v in fn.variables:
       if v.constraint is not None and type(v.constraint).__name__ == kind_:
         v.assign(v.constraint(v))
   for v in fn.variables:
-    if v.constraint is not None and type(v.constraint).__name__ not in ('NaiveBoundsConstraints', 'ScaleConstraints', 'KroneckerFactoredLatticeConstraints'):
+    if v.constraint is not None and type(v.constraint).__name__ not in ('NaiveBoundsConstraints', 'CategoricalCalibrationConstraints', 'ScaleConstraints', 'KroneckerFactoredLatticeConstraints'):
       new = v.constraint(v)
       moved = max(moved, float(tf.reduce_max(tf.abs(new - v))))
   out = model(xs).numpy().astype(np.float64).reshape(2)
